@@ -13,7 +13,10 @@ import (
 
 type Op struct {
 	O   string `json:"o"`             // exec test match matchAll replace replaceFn search split
-	Lim *int   `json:"lim,omitempty"` // split limit
+	Lim *int   `json:"lim,omitempty"` // split limit / value returned by a coercion
+	K   int    `json:"k,omitempty"`   // side-effect kind of splitSE
+	V   int    `json:"v,omitempty"`   // lastIndex assigned by the side effect
+	T   bool   `json:"t,omitempty"`   // test instead of exec
 }
 
 type Case struct {
@@ -71,10 +74,25 @@ function run(patU,flags,subjU,start,ops,kind){
       case "replaceFn": r={t:"s",s:E(s.replace(re,function(m){ return "["+m+"]" }))}; break;
       case "search": r={t:"z",z:s.search(re)}; break;
       case "setli": re.lastIndex=op.lim; r={t:"z",z:op.lim}; break;
+      // ---- argument coercion with side effects on the same RegExp object
+      case "splitSE":
+        var limObj={valueOf:function(){
+          if (op.k==0) re.compile("c", flags);
+          else if (op.k==1) re.lastIndex=op.v;
+          else re.exec=function(x){ return RegExp.prototype.exec.call(this,x) };
+          return op.lim; }};
+        r={t:"l",l:s.split(re,limObj).map(E)}; break;
+      case "replaceLI": r={t:"s",s:E(s.replace(re,function(m){ re.lastIndex=op.v; return "["+m+"]" }))}; break;
+      case "execLIObj":
+        re.lastIndex={valueOf:function(){ re.lastIndex=op.v; return op.lim }};
+        if (op.tst) r={t:"b",b:re.test(s)}; else r={t:"m",m:M(re.exec(s))}; break;
+      case "execArgLI":
+        var argObj={toString:function(){ re.lastIndex=op.v; return s }};
+        if (op.tst) r={t:"b",b:re.test(argObj)}; else r={t:"m",m:M(re.exec(argObj))}; break;
       case "split": var y=(op.lim===undefined||op.lim===null)?s.split(re):s.split(re,op.lim); r={t:"l",l:y.map(E)}; break;
       }
     } catch(e){ r={t:"e",e:e.name}; }
-    r.li=re.lastIndex;
+    r.li=(typeof re.lastIndex=="number")?re.lastIndex:-999;
     out.push(r);
   }
   return JSON.stringify({eng:eng,ops:out});
@@ -204,6 +222,9 @@ func opsArg(ops []Op) []interface{} {
 		if o.Lim != nil {
 			m["lim"] = *o.Lim
 		}
+		m["k"] = o.K
+		m["v"] = o.V
+		m["tst"] = o.T
 		r[i] = m
 	}
 	return r
@@ -446,6 +467,23 @@ func (t *tk) op(o Op) {
 	case "setli":
 		t.n(8)
 		t.z(int64(*o.Lim))
+	case "splitSE":
+		t.n(9)
+		t.z(int64(*o.Lim))
+		t.n(uint64(o.K))
+		t.z(int64(o.V))
+	case "replaceLI":
+		t.n(10)
+		t.z(int64(o.V))
+	case "execLIObj":
+		t.n(11)
+		t.b(o.T)
+		t.z(int64(*o.Lim))
+		t.z(int64(o.V))
+	case "execArgLI":
+		t.n(12)
+		t.b(o.T)
+		t.z(int64(o.V))
 	default:
 		t.n(0)
 	}
@@ -783,6 +821,9 @@ func runCase1(c Case) vh.Record {
 	if c.Start > 0 && c.Start < len(c.Subj) && c.Subj[c.Start-1] >= 0xD800 && c.Subj[c.Start-1] <= 0xDBFF && c.Subj[c.Start] >= 0xDC00 && c.Subj[c.Start] <= 0xDFFF {
 		tags["start:inside-pair"] = true
 	}
+	if strings.Contains(string(utf16ToRunes(c.Pat)), `\u`) {
+		tags["pattern:unicode-escape"] = true
+	}
 	if strings.Contains(string(utf16ToRunes(c.Pat)), `\c`) || strings.Contains(string(utf16ToRunes(c.Pat)), `\x`) {
 		tags["pattern:control-escape"] = true
 	}
@@ -950,7 +991,27 @@ func (g *pgen) lit() string {
 		c = litPool[g.r.Intn(len(litPool))]
 	}
 	g.lits = append(g.lits, c)
+	if g.r.Chance(22) {
+		return spell(g.r, c, g.uflag)
+	}
 	return string(c)
+}
+
+// spell writes a character as an escape: \xHH, \uXXXX, a lead/trail pair of \uXXXX escapes, or \u{...} (u flag only)
+func spell(r *vh.Rng, c rune, uflag bool) string {
+	switch {
+	case c > 0xFFFF:
+		if uflag && r.Bool() {
+			return fmt.Sprintf(`\u{%X}`, c)
+		}
+		u := toUnits(string(c))
+		return fmt.Sprintf(`\u%04X\u%04x`, u[0], u[1])
+	case c < 0x100 && r.Bool():
+		return fmt.Sprintf(`\x%02x`, c)
+	case uflag && r.Chance(30):
+		return fmt.Sprintf(`\u{%x}`, c)
+	}
+	return fmt.Sprintf(`\u%04X`, c)
 }
 
 func (g *pgen) class() string {
@@ -1191,14 +1252,47 @@ func genRun(r *vh.Rng) Case {
 			v := r.Intn(len(subj) + 2)
 			o = Op{O: "setli", Lim: &v}
 		}
-		if o.O == "split" && c.Deopt == 1 {
+		if i > 0 && r.Chance(8) {
+			o = reentrantOp(r, len(subj), false)
+		}
+		if (o.O == "split" || o.O == "splitSE") && c.Deopt == 1 {
 			// kind 1 de-optimises the instance only: the splitter clone made by @@split would be a pristine
 			// RegExp again, so this configuration would not exercise the generic split path
 			o = Op{O: "exec"}
 		}
 		c.Ops = append(c.Ops, o)
 	}
+	if r.Chance(12) && c.Deopt != 1 {
+		// a split whose limit coercion re-compiles the RegExp / overrides exec ends the sequence
+		c.Ops = append(c.Ops, reentrantOp(r, len(subj), true))
+		if len(c.Ops) > 5 {
+			c.Ops = c.Ops[len(c.Ops)-5:]
+		}
+	}
 	return c
+}
+
+// reentrantOp: an operation one of whose arguments runs user code touching the same RegExp object while it is
+// being coerced.  final = the RegExp may be left re-compiled / non-standard (must be the last op of the case).
+func reentrantOp(r *vh.Rng, n int, final bool) Op {
+	if final {
+		lim := 1 + r.Intn(6)
+		if r.Chance(30) {
+			lim = 10
+		}
+		return Op{O: "splitSE", Lim: &lim, K: []int{0, 0, 2}[r.Intn(3)], V: 0}
+	}
+	switch r.Pick(3, 3, 3, 2) {
+	case 0:
+		return Op{O: "replaceLI", V: r.Intn(n + 2)}
+	case 1:
+		v := r.Intn(n + 2)
+		return Op{O: "execLIObj", Lim: &v, V: r.Intn(n + 2), T: r.Chance(30)}
+	case 2:
+		return Op{O: "execArgLI", V: r.Intn(n + 2), T: r.Chance(30)}
+	}
+	lim := 1 + r.Intn(5)
+	return Op{O: "splitSE", Lim: &lim, K: 1, V: r.Intn(n + 2)}
 }
 
 // genCacheCase: the per-object match cache of the backtracking engine under u with g/y.  A first call starts
@@ -1224,6 +1318,9 @@ func genCacheCase(r *vh.Rng) Case {
 	tail := other[r.Intn(3)]
 	subj = append(subj, uint16(tail))
 	a := string(astral)
+	if r.Chance(45) {
+		a = spell(r, astral, true)
+	}
 	t := string(tail)
 	pats := []string{a + "|" + t, "[" + a + "]|" + t, a + "?" + t, "(" + a + ")|(" + t + ")", a + "+|" + t, "[^" + a + "a]" + t + "|" + a,
 		"(?<n1>" + a + ")|" + t, a + "." + "|" + t, "\\B" + t + "|" + a, ".*?" + a + "|" + t}
